@@ -10,6 +10,9 @@ package goat
 //@   ensures[C08.malformed_ignored]    !DU(timeout) ==> !result.1
 //@   ensures[C08.overlong_not_misread] DU(timeout) && result.1 ==> result.0 == timeoutNs(timeout)
 //@   ensures[C08.never_negative]       result.1 ==> result.0 >= 0
+// the client encodes every caller deadline as <milliseconds>m, up to 13 digits for the range the property
+// quantifies over (10^4 hours = 11 digits): those values must be read exactly too, not only the 8-digit wire grammar
+//@   ensures[C08.client_encoded_deadlines_read_exactly] DU(timeout) && len(timeout) <= 14 ==> result.1 && result.0 == timeoutNs(timeout)
 
 // ---------------------------------------------------------------------------------
 // small pure helpers
@@ -303,6 +306,7 @@ package goat
 //@   requires ctx != nil
 //@   ensures[C18.read_result_wellformed C19.read_result_wellformed] result.1 != nil ==> result.0 == nil
 //@   ensures[C19.closed_is_error C18.closed_is_error] bound("ok") && !ok ==> result.1 != nil
+//@   ensures[C19.closed_or_done_is_error C18.closed_or_done_is_error] !lastrecvok() ==> result.1 != nil
 
 //@ func goat.NewGoatOverChannel$2
 //@   nopanic[C18.nopanic C19.nopanic]
@@ -402,6 +406,7 @@ package goat
 //@   atcall[C01.request_bytes] (google.golang.org/grpc/encoding.CodecV2).Marshal : arg1 == args
 //@   atcall[C01.reply_decoded_into_reply] (google.golang.org/grpc/encoding.CodecV2).Unmarshal : bound("replyBody") && replyBody != nil && bufContent(arg1[0]) == replyBody.Data && arg2 == reply
 //@   ensures[C01.one_call C20.one_call] ncalls("call:client.(*RpcMultiplexer).CallUnaryMethod") <= old(ncalls("call:client.(*RpcMultiplexer).CallUnaryMethod")) + 1
+//@   ensures[C01.reply_always_decoded] result == nil ==> bound("replyBody") && replyBody != nil
 //@   ensures[C13.decode_error_reported C01.decode_error_reported] ncalls("(google.golang.org/grpc/encoding.CodecV2).Unmarshal") == old(ncalls("(google.golang.org/grpc/encoding.CodecV2).Unmarshal")) + 1 ==> result == lastret("CodecV2).Unmarshal")
 //@   ensures[C03.error_passed_on C13.success_only_with_data] result == nil ==> ncalls("(google.golang.org/grpc/encoding.CodecV2).Unmarshal") == old(ncalls("(google.golang.org/grpc/encoding.CodecV2).Unmarshal")) + 1
 //@   ensures[C20.begin_end_once] ncalls("call:internal.StatsStartServerRPC") == old(ncalls("call:internal.StatsStartServerRPC")) + 1 && ncalls("call:internal.StatsEndRPC") == old(ncalls("call:internal.StatsEndRPC")) + 1
@@ -410,6 +415,14 @@ package goat
 //@ func goat.(*ClientConn).invoke$1
 //@   inline
 //@   atcall[C20.end_reports_final_error] internal.StatsEndRPC : arg3 == err && arg1
+
+// request decoder handed to the user's handler: called by user code with any message, must not crash
+// on any request shape (absent body, empty body)
+//@ func goat.(*handler).processUnaryRpc$2
+//@   nopanic[C12.nopanic]
+//@   captures h != nil && objinv(h) && ctx != nil
+//@   atcall[C01.request_decoded_from_request_body] (google.golang.org/grpc/encoding.CodecV2).Unmarshal : body != nil && bufContent(arg1[0]) == body.Data && arg2 == msg
+//@   ensures[C01.absent_body_is_the_empty_message] body == nil ==> result == nil && ncalls("(google.golang.org/grpc/encoding.CodecV2).Unmarshal") == old(ncalls("(google.golang.org/grpc/encoding.CodecV2).Unmarshal"))
 
 //@ func goat.(*handler).processUnaryRpc$1
 //@   inline
@@ -526,6 +539,10 @@ package goat
 // API precondition: a peer is attached with a usable connection
 //@ func goat.(*Proxy).AddClient
 //@   requires conn != nil
+
+// writer goroutine of a connection: the only writer on the transport, under the connection context
+//@ func goat.(*handler).serve$2
+//@   atcall[C10.writer_stops_with_connection C06.writer_forwards_unchanged] (types.RpcReadWriter).Write : arg1 == h.ctx && arg2 == rpc
 
 // unary worker of a connection: every blocking step has a context escape, and handlers run under the
 // connection-scoped child of the caller's context that serve cancels on return
